@@ -37,6 +37,13 @@ var coStates = []coState{
 	{"absent", map[string]string{"force-command": "x"}, false},
 	{"empty", map[string]string{optName: ""}, false},
 	{"set", map[string]string{optName: "host1,host2"}, true},
+	// non-empty values that name no host: the rule is about the option being non-empty, not about its content
+	{"set-comma-only", map[string]string{optName: ","}, true},
+	{"set-blank", map[string]string{optName: " "}, true},
+	{"set-tab", map[string]string{optName: "\t"}, true},
+	{"set-blanks-and-commas", map[string]string{optName: ", ,"}, true},
+	{"set-with-other-options", map[string]string{optName: "*", "force-command": "x", "source-address": "10.0.0.0/8"}, true},
+	{"other-option-with-similar-name", map[string]string{optName + "s": "host1", "Touchless-Sudo-Hosts": "host1"}, false},
 }
 
 func run(c *core.Ctx) {
